@@ -8,7 +8,15 @@ A *history* is a JSON-able list of steps executed by the scanner's main():
   {"op": "req", "spec": {"cls", "kw"}, "script": [...], "ana": bool, "retry": int|None}
   {"op": "toggle", "on": bool}              scanner.implicit_logging = on
   {"op": "raise"}                           main() raises RuntimeError
-  {"op": "par", "lanes": [[req steps], ...]} lanes run as concurrent tasks
+  {"op": "par", "lanes": [[req / ep steps], ...]} lanes run as concurrent tasks
+  {"op": "ep", "name": ..., "args": {...}, "tags": [...]|None, "retry": int|None, "emptycfg": bool,
+   "faults": {"n": script}}                  ONE call of a convenience entry point of the ECU client (transmit_data,
+                                            set_session, leave_session, ping, read_dtc, ..., the typed one-shot helpers)
+                                            which issues its exchanges itself; only in scanner-level jobs (see below);
+                                            the peer answers by request bytes, except that the n-th exchange of the call
+                                            is answered by faults[n]
+  {"op": "transitions", "dest": s, "steps": [...]}   the scanner stores a session transition for this target (what
+                                            `scan uds sessions` does), used by set_session's database fall-back
 script events of one call, consumed by the transport:
   ["D", hex] reply bytes   ["T"] read times out   ["C"] read raises ConnectionResetError
   ["E"] read returns b""   ["WC"] the next write raises BrokenPipeError
@@ -36,6 +44,13 @@ responder (by request bytes, not by position: a set-up that asks more or in anot
 for the reply.  "implicit logging on/off" of an exchange is what the COMMAND asked for (`scanner.implicit_logging`),
 not the flag of the ECU object: whether the one reaches the other is part of what is checked.
 
+Entry-point calls ("ep" steps): the caller hands ONE request config to a convenience call that makes several
+exchanges.  "as requested" (B2, log_mode) is then what the CALLER asked for, for the exchanges that ARE the operation
+(EP_OPERATION below: the data blocks and the exit of transmit_data, the DiagnosticSessionControl to the requested
+level of set_session, the one exchange of a one-shot helper); for auxiliary exchanges (resets, pings, session
+read-backs, intermediate sessions of a database transition, hooks of subclasses) the statement is silent about whose
+config applies, and the tag is, as everywhere else, the one of the config that reached the client's request().
+
 Nothing here judges the property: the module records events, reads the rows
 back with sqlite3 and lays both out as the record of DbLogContract.tla.
 """
@@ -43,6 +58,9 @@ back with sqlite3 and lays both out as the record of DbLogContract.tla.
 from __future__ import annotations
 
 import asyncio
+import contextvars
+import functools
+import inspect
 import json
 import logging
 import shutil
@@ -68,6 +86,30 @@ from harness.common import Machinery
 
 _ENVS: dict[str, "Env"] = {}
 _CURRENT: list["Env"] = []
+# the entry-point call ("ep" step) on whose behalf the current task (and the tasks it spawns) exchanges
+_EP: contextvars.ContextVar[dict[str, Any] | None] = contextvars.ContextVar("c11_ep", default=None)
+
+# Which exchanges of a multi-exchange entry point ARE the operation the caller's config was given for (by request
+# bytes, not by position: an implementation that orders or repeats them differently is judged all the same).
+EP_OPERATION: dict[str, Any] = {
+    "transmit_data": lambda args, pdu: pdu[:1] in (b"\x36", b"\x37"),
+    "set_session": lambda args, pdu: len(pdu) >= 2 and pdu[0] == 0x10 and (pdu[1] & 0x7F) == int(args["level"]),
+}
+# entry points all of whose exchanges are auxiliary as far as the caller's config goes (no config parameter, or a
+# config that the docstring does not promise to any particular exchange)
+EP_AUXILIARY = {"leave_session", "check_and_set_session", "refresh_state", "wait_for_ecu", "properties"}
+
+
+def ep_role(name: str, args: dict[str, Any], pdu: bytes, transitions: dict[int, list[int]] | None = None) -> str:
+    if name in EP_AUXILIARY:
+        return "auxiliary"
+    if name == "set_session" and int(args["level"]) in (transitions or {}).get(int(args["level"]), []):
+        # the transition stored for the level passes through the level itself: a DiagnosticSessionControl to it may
+        # be the operation or one of the intermediate steps -- not decidable from the bytes
+        return "auxiliary"
+    if name in EP_OPERATION:
+        return "operation" if EP_OPERATION[name](args, pdu) else "auxiliary"
+    return "operation"   # one-shot helpers: the exchange is the call
 
 
 class _Capture(logging.Handler):
@@ -130,6 +172,9 @@ class Env:
         self.auto_n = 0              # exchanges made outside main()'s history (ids 100001, 100002, ...)
         self.silent_pings = 0
         self.dsc_seen = False
+        self.peer_session = 1        # the scripted peer's own session (models with "stateful")
+        self.transitions: dict[int, list[int]] = {}   # session transitions the scanner stored for the target
+        self.ep_log: list[dict[str, Any]] = []   # entry-point calls: name, tags, exchanges made, how they ended
 
     def impl(self) -> bool:
         """implicit logging as the command asked for it (falls back to the ECU object's flag)"""
@@ -288,6 +333,42 @@ class HistScanner(UDSScanner):
             env.active.pop(_task(), None)
             env.rec(e="Ret", i=i, out=out, exc=exc, impl=env.impl())
 
+    async def _call_ep(self, step: dict[str, Any], i: int) -> None:
+        """One call of a convenience entry point of the ECU client.  The exchanges it makes are noted one by one by
+        the ECU subclass handed out by load_ecu (scanner-level jobs); here only: who asked for what."""
+        env = self.env
+        if env.scan is None:
+            raise Machinery("an entry-point step needs a scanner-level job (the observing ECU subclass)")
+        name = step["name"]
+        args = {k: K._dec(v) for k, v in step.get("args", {}).items()}
+        tags = step.get("tags")
+        fn = getattr(self.ecu, name)
+        kw = dict(args)
+        takes_config = "config" in inspect.signature(fn).parameters
+        if takes_config and (tags is not None or step.get("retry") is not None or step.get("emptycfg")):
+            kw["config"] = UDSRequestConfig(tags=None if tags is None else list(tags), max_retry=step.get("retry"))
+        ctx = {"i": i, "name": name, "args": args, "ana": bool(takes_config and tags and "ANALYZE" in tags), "n": 0,
+               "faults": step.get("faults") or {}}
+        entry = {"i": i, "name": name, "tags": tags, "out": "cancel", "exc": None, "exchanges": 0}
+        env.ep_log.append(entry)
+        tok = _EP.set(ctx)
+        try:
+            await fn(**kw)
+            entry["out"] = "ret"
+        except asyncio.CancelledError:
+            raise
+        except Exception as e:  # noqa: BLE001  (a refused block, a timeout, ...: the run goes on)
+            entry["out"], entry["exc"] = "exc", repr(e)[:200]
+        finally:
+            entry["exchanges"] = ctx["n"]
+            _EP.reset(tok)
+
+    async def _step(self, step: dict[str, Any], i: int) -> None:
+        if step["op"] == "ep":
+            await self._call_ep(step, i)
+        else:
+            await self._call(step, i)
+
     async def main(self) -> None:
         env = self.env
         env.ecu = self.ecu
@@ -334,9 +415,13 @@ class HistScanner(UDSScanner):
             for step in self.hist:
                 await env.point("idle")
                 op = step["op"]
-                if op == "req":
+                if op in ("req", "ep"):
                     n += 1
-                    await self._call(step, n)
+                    await self._step(step, n)
+                elif op == "transitions":
+                    # what `scan uds sessions` stores for the target; set_session() falls back to it
+                    await self.db_handler.insert_session_transition(int(step["dest"]), list(step["steps"]))
+                    env.transitions.setdefault(int(step["dest"]), list(step["steps"]))
                 elif op == "toggle":
                     self.implicit_logging = bool(step["on"])  # UDSScanner property -> ecu.implicit_logging
                     env.rec(e="Toggle", on=bool(step["on"]))
@@ -347,7 +432,7 @@ class HistScanner(UDSScanner):
 
                     async def lane(steps: list[dict[str, Any]], off: int) -> None:
                         for j, st in enumerate(steps):
-                            await self._call(st, off + j + 1)
+                            await self._step(st, off + j + 1)
 
                     offs = []
                     for ln in step["lanes"]:
@@ -393,16 +478,43 @@ def respond(env: Env, pdu: bytes) -> list[list[str]]:
         beh = model.get("reset", "ok")
         if beh == "ok" or (beh == "neg_then_ok" and env.dsc_seen):
             env.dsc_seen = False
+            env.peer_session = 1
             return [["D", bytes([0x51, pdu[1] & 0x7F]).hex()]]
         return [["D", "7f117f" if beh == "neg_then_ok" else "7f1122"]]
     if sid == 0x10 and len(pdu) == 2:
+        lvl = pdu[1] & 0x7F
+        # "gated": {level: session it can only be entered from} (JSON: keys are strings); "refused": [levels]
+        gate = (model.get("gated") or {}).get(str(lvl))
+        if gate is not None and env.peer_session != int(gate):
+            return [["D", "7f1022"]]
+        if lvl in (model.get("refused") or []):
+            return [["D", "7f1012"]]
         env.dsc_seen = True
-        return [["D", bytes([0x50, pdu[1] & 0x7F, 0x00, 0x32, 0x01, 0xF4]).hex()]]
+        env.peer_session = lvl
+        return [["D", bytes([0x50, lvl, 0x00, 0x32, 0x01, 0xF4]).hex()]]
     if pdu == b"\x22\xf1\x90":
         return [["D", (b"\x62\xf1\x90" + VIN).hex()]]
     if pdu == b"\x22\xf1\x86":
-        return [["D", "62f18601"]]
+        return [["D", bytes([0x62, 0xF1, 0x86, env.peer_session if model.get("stateful") else 1]).hex()]]
+    if sid == 0x36 and len(pdu) >= 2:
+        return [["D", bytes([0x76, pdu[1]]).hex()]]
+    if sid == 0x37:
+        return [["D", "77"]]
+    if model.get("positive_default"):
+        pos = _default_positive(bytes(pdu))
+        if pos is not None:
+            return [["D", pos]]
     return [["D", bytes([0x7F, sid, 0x11]).hex()]]
+
+
+@functools.lru_cache(maxsize=None)
+def _default_positive(pdu: bytes) -> str | None:
+    """A reply the real parser accepts as positive for this request (found by offering candidates to parse_pdu)."""
+    try:
+        pos = K.replies_for(service.UDSRequest.parse_dynamic(pdu))["Pos"]
+    except Exception:  # noqa: BLE001
+        return None
+    return pos[0][0].hex() if pos else None
 
 
 def make_obs_ecu(env: Env, oem_props: bool) -> type[ECU]:
@@ -427,10 +539,23 @@ def make_obs_ecu(env: Env, oem_props: bool) -> type[ECU]:
             i = 100000 + env.auto_n
             pdu = bytes(request.pdu)
             ana = config is not None and config.tags is not None and "ANALYZE" in config.tags
-            call = {"i": i, "script": respond(env, pdu), "pos": 0}
+            script = None
+            ep: dict[str, Any] = {}
+            ctx = _EP.get()
+            if ctx is not None:
+                # an exchange made on behalf of an entry-point call: "as requested" is what the CALLER of the entry
+                # point asked for where the exchange is the operation itself, else what reached request()
+                ctx["n"] += 1
+                role = ep_role(ctx["name"], ctx["args"], pdu, env.transitions)
+                ep = {"ep": ctx["name"], "epcall": ctx["i"], "role": role, "nth": ctx["n"],
+                      "tag_reached_request": bool(ana), "tag_of_caller": ctx["ana"]}
+                if role == "operation":
+                    ana = ctx["ana"]
+                script = ctx["faults"].get(str(ctx["n"]))
+            call = {"i": i, "script": script if script is not None else respond(env, pdu), "pos": 0}
             env.active[_task()] = call
             env.rec(e="Call", i=i, req=pdu.hex(), impl=env.impl(), ana=bool(ana), st=env.state(),
-                    cls=type(request).__name__, phase=env.phase)
+                    cls=type(request).__name__, phase=env.phase, ep=ep)
             out, exc = "ret", None
             try:
                 return await inner(request, config)
@@ -518,7 +643,7 @@ def build_trace(env: Env, rows: list[dict[str, Any]], closed: bool, aborted: boo
             calls[ev["i"]] = {"i": ev["i"], "req0": ev["req"], "writes": [], "replies": [], "out": "cancel",
                               "st0": ev["st"], "st": None, "impl0": ev["impl"], "impl1": ev["impl"],
                               "ana": ev["ana"], "cls": ev["cls"], "phase": ev.get("phase", "main"),
-                              "exc": None, "key": None, "callpos": pos,
+                              "ep": ev.get("ep") or {}, "exc": None, "key": None, "callpos": pos,
                               "open": True, "task": ev["task"], "warn": None}
         elif e == "W" and ev["i"] is None and env.scan is not None:
             raise Machinery(f"a transmission ({ev['data']}) outside any noted call of the ECU client: the harness's "
@@ -565,13 +690,13 @@ def build_trace(env: Env, rows: list[dict[str, Any]], closed: bool, aborted: boo
                      "impl": impl, "ana": c["ana"],
                      # the call ended with the client's "illegal response" errors: a reply WAS received and refused
                      "illegal": c["out"] == "exc" and str(c["exc"]).startswith(("RequestResponseMismatch", "MalformedResponse"))})
-        meta.append({"i": i, "cls": c["cls"], "exc": c["exc"], "warn": c["warn"], "phase": c["phase"]})
+        meta.append({"i": i, "cls": c["cls"], "exc": c["exc"], "warn": c["warn"], "phase": c["phase"], **c["ep"]})
     trows = [{k: r[k] for k in ("okDecode", "req", "hasResp", "resp", "hasExc", "st", "mode", "send", "hasRecv",
                                 "recv")} for r in rows]
     return {"exch": exch, "rows": trows, "closed": closed, "aborted": aborted, "stray": stray,
             "meta": meta, "warns": [ev["msg"] for ev in env.log if ev["e"] == "Warn"],
             "aborts": [{"k": ev["k"], "where": ev["where"]} for ev in env.log if ev["e"] == "Abort"],
-            "rowexc": [r["exc"] for r in rows]}
+            "rowexc": [r["exc"] for r in rows], "ep_calls": env.ep_log}
 
 
 async def _watchdog(env: Env) -> None:
